@@ -25,7 +25,7 @@ FS_CONSTS = [
     ("sim_fd_base_log2", FS_LIB, r"pub const SIM_FD_BASE: RawFd = 1 << (\d+);", "N"),
 ]
 
-KLASS_IDS = {"OpenOptsInvalid": 0, "RootOp": 1, "RenameSelf": 2, "RenameFile": 3, "RenameDir": 4, "StaleHandle": 5,
+KLASS_IDS = {"RootOp": 1, "RenameSelf": 2, "RenameFile": 3, "RenameDir": 4, "StaleHandle": 5,
              "Recreate": 6}
 
 HEADER = ("From TV.Lib Require Import Base.\nFrom TV.Fs Require Import FsImpl FsSpec FsSafe.\n"
@@ -74,7 +74,7 @@ class Spec(PropSpec):
     theorems = ["c10_refines", "c10_sync_is_invisible", "c10_nonvacuous", "c10_time_is_invisible", "c10_hosts_isolated",
                 "c10_rename_file_refuted", "c10_rename_twice_refuted", "c10_rename_self_refuted",
                 "c10_rename_dir_refuted", "c10_stale_handle_refuted", "c10_recreate_refuted",
-                "c10_open_opts_refuted", "c10_root_op_refuted"]
+                "c10_root_op_refuted"]
     coq_targets = ["C10.vo"]
     consts = FS_CONSTS
     anchors = FS_ANCHORS
@@ -93,7 +93,7 @@ class Spec(PropSpec):
         "io_uring front-end is covered by C18",
     ]
     partial_note = ("c10_refines covers every operation except create_dir_all / remove_dir_all (correspondence + oracle only) "
-                    "and holds outside the known classes RenameFile, RenameSelf, RenameDir, StaleHandle, Recreate, OpenOptsInvalid, "
+                    "and holds outside the known classes RenameFile, RenameSelf, RenameDir, StaleHandle, Recreate, "
                     "RootOp, each of which has a _refuted theorem with a witness replayed on the crate")
 
     def gen_cases(self, ctx):
